@@ -541,6 +541,7 @@ func main() {
 			break
 		}
 	}
+	neighboursStage()
 	rep.Write(orc)
 }
 
